@@ -64,6 +64,13 @@ CHECKS = {
         technique="deterministic simulation: scripted RNG seam with forced measurement-outcome histories, refinement against an independent branch enumerator",
         design="4/C21",
     ),
+    "C22": dict(
+        category="exploration",
+        text="Seeded search over allocation histories with exhaustive reset-outcome enumeration and register exhaustion as the injected fault: nested and overlapping allocate/deallocate scopes (zero/any, restored true/false) that honour their promises are resolved against random zeroed / any_state registers whose dirty wires are really dirty (entangled with a data wire), with min_int and allow_resets drawn per run and register sizes drawn to run dry in a third of the runs. A liveness replay of the resolved tape checks that no two live dynamic wires share a concrete wire, none lands on a data wire or outside the registers, and none is used after deallocation; the branch enumerator walks every outcome history of the resets the transform inserted and the outcome-weighted reduced state of the data wires must equal the reference in which every allocation got a fresh |0> wire; the device's own resolution is executed on default.qubit and compared as well. Under exhaustion only a valid resolution or AllocationError is accepted.",
+        note="Weakest fit of the eleven (no scheduler nondeterminism; said so in DESIGN.md): the simulator contributes the reset-outcome histories and the exhaustion fault. Trusted: the reference simulator and branch enumerator; the generator's promise-keeping patterns (compute-use-uncompute with a classical-copy ancilla, toggling pattern for dirty ancillas).",
+        technique="deterministic simulation: exhaustive enumeration of inserted-reset outcome histories + register-exhaustion fault injection over allocation histories, reference = fresh-wire circuit",
+        design="4/C22",
+    ),
 }
 
 NA = {}
